@@ -187,6 +187,14 @@ inherit() {
 		local PROPERTIES RESTRICT
 	fi
 
+	# An eclass calling `unset` on one of the above would otherwise remove our
+	# local (it lives in an outer function scope) and expose, or later clobber,
+	# the caller's value. Requires bash >= 5.0; older versions keep the old behavior.
+	local PKGCORE_RESET_LOCALVAR_UNSET=false
+	if ! shopt -q localvar_unset 2>/dev/null && shopt -s localvar_unset 2>/dev/null; then
+		PKGCORE_RESET_LOCALVAR_UNSET=true
+	fi
+
 	# keep track of direct ebuild inherits
 	[[ ${INHERIT_DEPTH} -eq 1 ]] && INHERIT+=" $@"
 
@@ -227,6 +235,9 @@ inherit() {
 
 		shift
 	done
+
+	${PKGCORE_RESET_LOCALVAR_UNSET} && shopt -u localvar_unset
+	return 0
 }
 
 # Exports stub functions that call the eclass's functions, thereby making them default.
